@@ -195,3 +195,18 @@ func (t *VerifTicker) Drop(i int) {
 	t.pending = append(t.pending[:i:i], t.pending[i+1:]...)
 	t.mtx.Unlock()
 }
+
+// VerifScheduleTimeout schedules a timeout on any TimeoutTicker (timeoutInfo is unexported).
+func VerifScheduleTimeout(t TimeoutTicker, v VerifTimeout) {
+	t.ScheduleTimeout(timeoutInfo{v.Duration, v.Height, v.Round, v.Step})
+}
+
+// VerifNextTock receives one fired timeout from any TimeoutTicker, or reports false after d.
+func VerifNextTock(t TimeoutTicker, d time.Duration) (VerifTimeout, bool) {
+	select {
+	case ti := <-t.Chan():
+		return VerifTimeout{ti.Duration, ti.Height, ti.Round, ti.Step}, true
+	case <-time.After(d):
+		return VerifTimeout{}, false
+	}
+}
